@@ -14,7 +14,7 @@ import subprocess
 
 from . import common, regworld
 
-FACTORS = {"m": (2, 1), "cm": (1, 100), "Mcf": (1000, 1), "s": (60, 1), "1000ft3": (3, 1)}
+FACTORS = {"m": (2, 1), "cm": (1, 100), "Mcf": (1000, 1), "s": (60, 1), "1000ft3": (3, 1), "S": (7, 1), "MCF": (9, 1)}
 REGISTRATIONS = ("AddUnit", "AddUnitBase", "AddUnitBad", "AddCategory", "Clear")
 
 
